@@ -11,7 +11,7 @@ from pyvc import sym as S
 from pyvc.explore import explore, check_against_spec, drive_coroutine
 from pyvc.harness import UnitResult
 from pyvc.interp import Interp, IGen, PyExc, run_sync
-from pyvc.loops import CountedYieldLoop
+from pyvc.loops import CountedYieldLoop, CountedLoopAny
 from contracts.decoder import mk_region, mk_region_list, TypedStub, typed_int, stub_is_valid
 from contracts.u05_typed import allowed_formula
 from checks.common import layout, sym_equal, conj
@@ -56,7 +56,7 @@ def leaf_loop_specs():
     from pyvc.interp import function_ast
 
     node, _, _ = function_ast(C.consume_bytes)
-    return {("consume_bytes", 0): CountedYieldLoop("consume_bytes")}
+    return {("consume_bytes", 0): CountedLoopAny("consume_bytes")}
 
 
 def leaf_spec(env, T, P, path, regions, mode, needs):
